@@ -140,6 +140,137 @@ def h_state(params, env=None):
     return fn
 
 
+def h_state2(params, env=None):
+    """operations from a previously synchronised base state (two entries with both sides populated), mixed id styles
+    (local ids are paths, remote ids are object ids) or same style on both sides; size: 'tiny' | 'medium' | 'full'"""
+    def fn():
+        e = env or SymEnv()
+        _lab.reset()
+        lp = params["local_path_ids"]
+        provs = (_lab.mk_provider(lp), _lab.mk_provider(False))
+        st = S.SyncState(provs)
+        from cloudsync.types import FILE, DIRECTORY, IgnoreReason
+        size = params["size"]
+        names = ["/a", "/b"] + ([] if size == "tiny" else ["/a/c"])
+        loids = names if lp else ["l-a", "l-b", "l-c"][:len(names)]
+        roids = ["r-a", "r-b", "r-c"][:len(names)]
+        hist = []
+        # ---- base: /a and /b synchronised
+        for i, n in enumerate(names[:2]):
+            st.update(0, FILE, loids[i], path=n, hash=b"h" + n.encode(), exists=True)
+            ent = st.lookup_oid(0, loids[i])
+            ent[1].oid = roids[i]
+            ent[1].path = n
+            ent[1].hash = b"h" + n.encode()
+            ent[1].exists = S.EXISTS
+            for sd in (0, 1):
+                ent[sd].sync_hash = ent[sd].hash
+                ent[sd].sync_path = n
+                ent[sd].changed = 0
+            st.finished(ent)
+        why = invariants(st)
+        if why:
+            return {"ok": False, "info": {"why": "base state: " + why, "hist": hist}}
+        kinds = ["event", "assign"] + ([] if size == "tiny" else ["split", "merge", "finished"])
+        for k in range(params["K"]):
+            kind = kinds[e.choose("kind", len(kinds))]
+            try:
+                if kind == "event":
+                    side = e.choose("side", 2)
+                    otype = FILE if size != "full" else (FILE, DIRECTORY)[e.choose("otype", 2)]
+                    exists = [True, False, None][e.choose("exists", 2 if size == "tiny" else 3)]
+                    if side == 0:
+                        i = e.choose("name", len(names))
+                        oid, path = loids[i], names[i]
+                        if not lp:
+                            path = ([None] + names)[e.choose("path", len(names) + 1)] if size != "tiny" else names[e.choose("path", len(names))]
+                        prior = None
+                        if lp:
+                            j = e.choose("prior", len(names) + 1)
+                            prior = None if j == 0 else names[j - 1]
+                            if prior == oid:
+                                prior = None
+                    else:
+                        oid = roids[e.choose("roid", len(roids))]
+                        path = (names if size == "tiny" else [None] + names)[e.choose("path", len(names) + (0 if size == "tiny" else 1))]
+                        prior = None
+                    hist.append(("event", side, otype.value, oid, path, exists, prior))
+                    if otype == DIRECTORY and path:
+                        for cand in (st.lookup_oid(side, oid), st.lookup_oid(side, prior) if prior else None):
+                            if cand and cand[side].path and path.startswith(cand[side].path + "/"):
+                                raise _Skip()
+                    st.update(side, otype, oid, path=path, hash=(b"h%d" % k) if otype == FILE else None, exists=exists, prior_oid=prior)
+                elif kind == "assign":
+                    ents = sorted(st.get_all(discarded=True), key=lambda x: x._hseq)
+                    if not ents:
+                        continue
+                    en = ents[e.choose("ent", len(ents))]
+                    side = e.choose("side", 2)
+                    whats = ["clear", "changed0", "discard"] + ([] if size == "tiny" else ["changed+", "conflict", "path", "oid", "exists-trashed"])
+                    what = whats[e.choose("what", len(whats))]
+                    hist.append(("assign", en._hseq, side, what))
+                    if what == "clear":
+                        en[side].clear()
+                    elif what == "changed0":
+                        en[side].changed = 0
+                    elif what == "changed+":
+                        if en[side].oid is not None:
+                            en[side].changed = 77.0
+                    elif what == "discard":
+                        en.ignore(IgnoreReason.DISCARDED)
+                    elif what == "conflict":
+                        en.ignore(IgnoreReason.CONFLICT)
+                    elif what == "path":
+                        if en[side].oid is not None and not (lp and side == 0):
+                            en[side].path = names[e.choose("newpath", len(names))]
+                    elif what == "oid":
+                        pool = (loids if side == 0 else roids)
+                        en[side].oid = ([None] + pool)[e.choose("newoid", len(pool) + 1)]
+                    elif what == "exists-trashed":
+                        en[side].exists = S.TRASHED
+                elif kind == "split":
+                    ents = sorted([x for x in st.get_all() if x[0].oid], key=lambda x: x._hseq)
+                    if not ents:
+                        continue
+                    en = ents[e.choose("ent", len(ents))]
+                    hist.append(("split", en._hseq))
+                    st.split(en)
+                elif kind == "merge":
+                    ents = sorted(st.get_all(discarded=True), key=lambda x: x._hseq)
+                    if len(ents) < 2:
+                        continue
+                    a = ents[e.choose("ent", len(ents))]
+                    b = ents[e.choose("ent2", len(ents))]
+                    side = e.choose("side", 2)
+                    if a is b or not b[side].oid:
+                        continue
+                    hist.append(("merge", a._hseq, b._hseq, side))
+                    a[side] = b[side]
+                elif kind == "finished":
+                    ents = sorted(st.get_all(discarded=True), key=lambda x: x._hseq)
+                    if not ents:
+                        continue
+                    en = ents[e.choose("ent", len(ents))]
+                    hist.append(("finished", en._hseq))
+                    en[0].changed = 0
+                    en[1].changed = 0
+                    st.finished(en)
+            except _Skip:
+                hist[-1] = hist[-1] + ("skipped: folder moved into itself",)
+                continue
+            except AssertionError:
+                hist[-1] = hist[-1] + ("rejected",)
+            why = invariants(st)
+            if why:
+                return {"ok": False, "info": {"why": why, "hist": hist}}
+        return {"ok": True, "key": repr(hist), "nontrivial": True}
+    return fn
+
+
+class _Skip(Exception):
+    pass
+
+
 OPS = ["create_a", "create_b", "write_a", "delete_a", "rename_a_b", "mkdir_d", "rmdir_d", "move_a_d", "rendir_d_e", "mkdir_d_s", "create_d_a"]
 
 
@@ -210,7 +341,7 @@ def _mut(params, env=None):
     return fn
 
 
-HARNESSES = {"state": h_state, "engine": h_engine, "state~changed-not-pending": _mut}
+HARNESSES = {"state": h_state, "state2": h_state2, "engine": h_engine, "state~changed-not-pending": _mut}
 
 
 def _sig(harness, params, info, exc=None):
@@ -241,11 +372,16 @@ def jobs(tier):
     out = []
     if q:
         out.append({"harness": "state", "params": {"oid_is_path": False, "K": 2}, "label": "state-ops/object-ids/2"})
-        out.append({"harness": "state", "params": {"oid_is_path": True, "K": 2, "noids": 2, "nprior": 2}, "label": "state-ops/path-ids/2/2-ids"})
+        out.append({"harness": "state2", "params": {"local_path_ids": True, "K": 2, "size": "medium"}, "label": "from-synced-base/path+object-ids/2/medium"})
+        out.append({"harness": "state2", "params": {"local_path_ids": True, "K": 3, "size": "tiny"}, "label": "from-synced-base/path+object-ids/3/tiny"})
     else:
         out.append({"harness": "state", "params": {"oid_is_path": False, "K": 2}, "label": "state-ops/object-ids/2"})
         out.append({"harness": "state", "params": {"oid_is_path": True, "K": 2}, "label": "state-ops/path-ids/2"})
         out.append({"harness": "state", "params": {"oid_is_path": False, "K": 3, "noids": 2}, "label": "state-ops/object-ids/3/2-ids"})
+        for lp in (True, False):
+            out.append({"harness": "state2", "params": {"local_path_ids": lp, "K": 2, "size": "full"}, "label": "from-synced-base/%s/2/full" % ("path+object-ids" if lp else "object-ids")})
+            out.append({"harness": "state2", "params": {"local_path_ids": lp, "K": 3, "size": "medium"}, "label": "from-synced-base/%s/3/medium" % ("path+object-ids" if lp else "object-ids")})
+            out.append({"harness": "state2", "params": {"local_path_ids": lp, "K": 4, "size": "tiny"}, "label": "from-synced-base/%s/4/tiny" % ("path+object-ids" if lp else "object-ids")})
     for f in (("oid", "path") if q else ("oid", "path", "mixed", "oid-ci", "oid-filt")):
         for side in (0, 1):
             for op in OPS:
